@@ -407,6 +407,141 @@ def enum_boundary(tier):
                 yield {"cls": name, "val": {f.name: v}}
 
 
+# ---------------------------------------------------------------- two threads decoding a struct type for the first time
+def full_value(cls, depth=1):
+    """Every encodable field of cls set to a small value."""
+    losers = decoder_alias_losers(cls)
+    val = {}
+    for f in init_fields(cls):
+        if not encodable(f) or f.name in losers:
+            continue
+        k = kind(f.type)
+        if k[0] == "int":
+            val[f.name] = 1
+        elif k[0] == "enum":
+            val[f.name] = int(list(k[2])[0])
+        elif k[0] == "bytes":
+            val[f.name] = b"\x01"
+        elif k[0] == "str":
+            val[f.name] = "a"
+        elif k[0] in ("struct", "seq") and depth < 5:
+            inner = full_value(k[2] if k[0] == "struct" else k[1][2], depth + 1)
+            if inner:           # an item with no field set at the end of a list is outside the encode domain (see field_value)
+                val[f.name] = inner if k[0] == "struct" else [inner]
+    return val
+
+
+_TLV8_FILE = tlv8.__file__
+
+
+def _decode_pair(sub, encoded, k):
+    """Thread A decodes `encoded` as `sub` and is held at its k-th line event inside aiohomekit/tlv8.py while thread B
+    decodes the same bytes from start to end; then A goes on.  The harness owns the switch point (sys.settrace in
+    thread A only), so the schedule is a function of k.  -> (result A, result B, whether A was held inside decode)"""
+    import sys
+    import threading
+    held = threading.Event()
+    b_done = threading.Event()
+    out = {"held_inside": False}
+    n = [0]
+
+    def tracer(frame, event, arg):
+        if frame.f_code.co_filename != _TLV8_FILE:
+            return None
+        if event == "line":
+            n[0] += 1
+            if n[0] == k:
+                out["held_inside"] = True
+                held.set()
+                if not b_done.wait(20):
+                    out["stuck"] = True
+        return tracer
+
+    def run_a():
+        sys.settrace(tracer)
+        try:
+            out["a"] = ("ok", sub.decode(encoded))
+        except Exception as e:  # noqa: BLE001
+            out["a"] = ("exc", e)
+        finally:
+            sys.settrace(None)
+            held.set()
+
+    def run_b():
+        held.wait(20)
+        try:
+            out["b"] = ("ok", sub.decode(encoded))
+        except Exception as e:  # noqa: BLE001
+            out["b"] = ("exc", e)
+        finally:
+            b_done.set()
+
+    ta, tb = threading.Thread(target=run_a), threading.Thread(target=run_b)
+    ta.start()
+    tb.start()
+    ta.join(60)
+    tb.join(60)
+    if ta.is_alive() or tb.is_alive() or out.get("stuck") or "a" not in out or "b" not in out:
+        raise HarnessError("thread schedule did not complete")
+    out["events"] = n[0]
+    return out
+
+
+def run_first_decode_threads(case, R):
+    cls = BY_NAME.get(case["cls"])
+    if cls is None:
+        raise HarnessError(f"class {case['cls']} not found by reflection")
+    val = case["val"]
+    ref = refhap.enc_struct(ref_items(cls, val))
+    R.cls("class:" + cls.__qualname__)
+    ks = case.get("ks")
+    held_any = False
+    k = 0
+    while True:
+        k += 1
+        if ks is not None:
+            if not ks:
+                break
+            k = ks.pop(0)
+        # a type nobody has decoded yet in this process: same fields, same module, new class object
+        sub = type(cls.__name__, (cls,), {"__module__": cls.__module__})
+        obj = build(sub, val)
+        out = _decode_pair(sub, ref, k)
+        held_any = held_any or out["held_inside"]
+        for who in ("a", "b"):
+            tag, res = out[who]
+            if tag == "exc":
+                R.fail("C16.decode-raises", f"{cls.__qualname__}: thread {who.upper()} of two threads decoding the type for the first time "
+                       f"(A held at line event {k} of tlv8.py): {type(res).__name__}: {res}", exc=type(res).__name__, cls=cls.__qualname__, threads=1)
+                R.nt(True)
+                return
+            if res != obj:
+                R.fail("C16.roundtrip", f"{cls.__qualname__}: thread {who.upper()} (A held at line event {k}) decoded {res!r:.300} != {obj!r:.300}",
+                       cls=cls.__qualname__, threads=1)
+                R.nt(True)
+                return
+        if ks is None and not out["held_inside"]:
+            break               # k is past the last line event of a decode: every switch point was tried
+        if k > 5000:
+            raise HarnessError("decode does not end")
+    R.nt(held_any)
+    if held_any:
+        R.cls("held-inside-decode")
+
+
+def enum_first_decode(tier):
+    for cls in CLASSES:
+        if any(encodable(f) for f in init_fields(cls)):
+            yield {"cls": f"{cls.__module__}.{cls.__qualname__}", "val": full_value(cls)}
+
+
+@st.composite
+def first_decode_cases(draw):
+    c = draw(roundtrip_cases())
+    c["ks"] = sorted(draw(st.lists(st.integers(1, 400), min_size=1, max_size=6, unique=True)))
+    return c
+
+
 # ---------------------------------------------------------------- decode-only: reference-encoded signatures and databases
 FORMATS = {  # format byte -> (name, struct code)
     0x01: ("bool", "B"), 0x04: ("uint8", "B"), 0x06: ("uint16", "H"), 0x08: ("uint32", "L"),
@@ -723,6 +858,10 @@ SPEC = Property(
               space="ids with every byte value in low/high position, lists of 0..6 ids", min_nontrivial=500),
         Layer("ble-service-signature", run_ble_service_sig, strategy=service_sig_cases, n={"quick": 5000, "thorough": 60000}),
         Layer("coap-database", run_db, strategy=db_cases, n={"quick": 2500, "thorough": 40000}, min_nontrivial=100),
+        Layer("first-decode-two-threads", run_first_decode_threads, enumerate=enum_first_decode, exhaustive=True,
+              space="every class with all encodable fields set x every line of aiohomekit/tlv8.py at which the first decoding thread "
+                    "can be pre-empted by a second thread decoding the same, never before decoded, type"),
+        Layer("first-decode-two-threads-gen", run_first_decode_threads, strategy=first_decode_cases, n={"quick": 300, "thorough": 6000}),
     ],
     assumptions=["reference struct encoder vlib/refhap.enc_struct written from HAP-BLE 7.3.3 / TLV8 rules",
                  "every encoded field is >= 1 byte; float-annotated fields (no serializer in the tree) and packed integer lists "
